@@ -102,7 +102,14 @@ func (a *analyzer) funcTraces(decl *ast.FuncDecl, binds map[types.Object]*closur
 		}
 		t := p.ev
 		for i := len(p.defers) - 1; i >= 0; i-- {
-			t = concat(t, []Ev{p.defers[i]})
+			d := p.defers[i]
+			switch d {
+			case evRUnlock:
+				d = evRUnlockDeferred
+			case evUnlock:
+				d = evUnlockDeferred
+			}
+			t = concat(t, []Ev{d})
 		}
 		out = append(out, t)
 	}
